@@ -2,7 +2,7 @@ CONSTANTS
 MinI = 3
 BLo <- BLoA
 BHi <- BHiA
-MaxT = 12
+MaxT = 10
 MaxReq = 3
 MaxLookups = 5
 MaxDur = 1
